@@ -400,6 +400,8 @@ def run(prog: Program, L: Ledger) -> None:
     def _as_setdiff(v):
         """`np.setdiff1d(C, T)` — or its spelled-out form `C[np.isin(C, T, invert=True)]` / `C[~np.isin(C, T)]` (what numpy's
         setdiff1d does for unique inputs) — as a (C, T) call-like pair; None otherwise"""
+        if isinstance(v, ast.Call) and norm(v.func) in ("np.setdiff1d", "numpy.setdiff1d") and len(v.args) >= 2:
+            return v  # as written: its arguments are looked at (and inlined where needed) by the rule itself
         v = linl.inline(v)
         if isinstance(v, ast.Call) and norm(v.func) in ("np.setdiff1d", "numpy.setdiff1d") and len(v.args) >= 2:
             return v
